@@ -48,6 +48,8 @@ def build(cfg, kind):
 
 def build_real(cfg):
     name, cc, flags, _ = cfg
+    bdir = core.build_dir('C09')
+    flags = list(flags) + ['-I' + bdir]
     return core.compile_c('C09', 'h_c09_%s' % name, ['harness/C09/h_c09_real.c'], flags=list(flags), cc=cc, opt='-O1', san='asan')
 
 
@@ -68,6 +70,10 @@ def run(tier):
         'with -DEC_DISABLE_PUB_KEY_CHK only round trips, key derivation, DH and memory discipline are judged (the statement ties '
         'the accept/reject rule to "validation enabled")',
     ]
+    # reference points for the built-in curves (Python integers, parameters parsed from the library's own table)
+    import subprocess, sys
+    subprocess.run([sys.executable, os.path.join(core.VERIF, 'harness', 'C09', 'gen_real_points.py'), core.REPO,
+                    os.path.join(core.build_dir('C09'), 'real_points.h'), '6' if tier == 'quick' else '16'], check=True)
     cfgs = [c for c in CONFIGS if tier == 'thorough' or c[5] == 'quick']
     reals = [c for c in REAL if tier == 'thorough' or c[3] == 'quick']
     jobs = [(c, k) for c in cfgs for k in c[4]]
